@@ -665,6 +665,11 @@ int main(int argc, char *argv[]) {
     }
   }
 
+  // Loading is lazy, and in some modes nothing above has queried the
+  // database yet.  Make sure every requested file has been read before we
+  // look at the error flag.
+  interrogate_number_of_global_types();
+
   if (interrogate_error_flag()) {
     nout << "Error reading interrogate data.\n";
     output_code_filename.unlink();
